@@ -258,6 +258,59 @@ def batch_slices(ctx):
                    scope=f"n 0..{top}, start/stop None or -{top + 2}..{top + 2}, step None,±1,±2,±3,±5")
 
 
+def batch_index_forms(ctx):
+    """every index tuple over {int, negative int, full slice, partial slice, empty slice, index array, 2-d index
+    array, Ellipsis} of length <= 4 on arrays of rank 1..3: accepted/rejected like NumPy, same shape (the placement
+    of the advanced-index axes depends on what separates the advanced indices — also an Ellipsis standing for no axis)"""
+    import pytato as pt
+    elems = [0, -1, slice(None), slice(0, 1), slice(1, 1), "i", "j", Ellipsis]
+    iv, jv = np.array([0, 1]), np.array([[1], [0]])
+    pi_, pj = pt.make_placeholder("i", iv.shape, np.int64), pt.make_placeholder("j", jv.shape, np.int64)
+    stats = {"both_accept": 0, "both_reject": 0, "pytato_rejects_numpy_accepts": 0, "pytato_accepts_numpy_rejects": 0}
+    cases = dis = 0
+    for shape in [(2,), (2, 3), (2, 3, 4), (2, 0, 3)]:
+        a = np.zeros(shape)
+        x = pt.make_placeholder("x", shape, np.float64)
+        for r in range(1, min(len(shape) + 2, 4) + 1):
+            for combo in itertools.product(elems, repeat=r):
+                if sum(1 for c in combo if c is Ellipsis) > 1:
+                    continue
+                nix = tuple(iv if c == "i" else jv if c == "j" else c for c in combo)
+                pix = tuple(pi_ if c == "i" else pj if c == "j" else c for c in combo)
+                cases += 1
+                dis += _cmp(ctx, f"index:{shape}:{combo!r}", lambda: x[pix], lambda: a[nix], stats)
+    ctx.note_batch("index-forms-vs-numpy", cases, dis, exhaustive=True, **stats)
+
+
+def batch_api_table(ctx):
+    """shape and dtype of every call of the API table (harness/apitable.py) + boundary constructor arguments vs NumPy;
+    dtype deviations listed as known findings are skipped by their own batches, here only where pytato and NumPy
+    agree on every other call of the same function"""
+    import pytato as pt
+    from .. import apitable
+    stats = {"both_accept": 0, "both_reject": 0, "pytato_rejects_numpy_accepts": 0, "pytato_accepts_numpy_rejects": 0}
+    cases = dis = 0
+    with np.errstate(all="ignore"):
+        for c in apitable.cases(ctx.seed, ctx.thorough):
+            inp = c["inputs"]
+            phs = {k: pt.make_placeholder(k, v.shape, v.dtype) for k, v in inp.items()}
+            cases += 1
+            dis += _cmp(ctx, "api:" + c["label"], lambda: c["build"](**phs), lambda: c["ref"](**inp), stats)
+        for N, M, k in itertools.product(range(0, 4), [None, 0, 1, 2, 3], range(-3, 4)):
+            cases += 1
+            dis += _cmp(ctx, f"eye:{N}:{M}:{k}", lambda: pt.eye(N, M, k), lambda: np.eye(N, M, k), stats)
+        for args in itertools.product(range(-3, 4), range(-3, 4), [-2, -1, 1, 2, 3]):
+            cases += 1
+            dis += _cmp(ctx, f"arange:{args}", lambda: pt.arange(*args, dtype=np.int64), lambda: np.arange(*args, dtype=np.int64), stats)
+        for sh in [(), (0,), (0, 3), (2, 0, 1), 3, [2, 2], (np.int64(2), 1)]:
+            for nm in ("zeros", "ones"):
+                cases += 1
+                dis += _cmp(ctx, f"{nm}:{sh!r}", lambda: getattr(pt, nm)(sh), lambda: getattr(np, nm)(sh), stats)
+            cases += 1
+            dis += _cmp(ctx, f"full:{sh!r}", lambda: pt.full(sh, 1.5), lambda: np.full(sh, 1.5), stats)
+    ctx.note_batch("api-table-shapes-vs-numpy", cases, dis, exhaustive=False, **stats)
+
+
 def batch_intermediates(ctx):
     n = 1200 if ctx.thorough else 200
     nprng = np.random.default_rng(ctx.seed + 33)
@@ -297,6 +350,8 @@ def run(ctx: common.Ctx):
     batch_broadcast(ctx)
     batch_validation(ctx)
     batch_slices(ctx)
+    batch_index_forms(ctx)
+    batch_api_table(ctx)
     batch_intermediates(ctx)
     ctx.broken = sorted(set(ctx.broken))[:50]
 
